@@ -142,9 +142,15 @@ def check_decode(acc, codec, buf, cid, kind, witness_extra=None):
                 key = "bodylength-not-verified"
             elif s.startswith("CheckSum ") and "!= actual" in s:
                 key = "accepts-wrong-checksum"
+            elif s.startswith(("third field is not MsgType", "fewer than 4 fields", "empty value for tag")):
+                # the statement ties a returned message to CheckSum and BodyLength, not to which fields the frame carries:
+                # a checksum-consistent frame without MsgType is the session layer's business (counted, not judged)
+                acc.add("returned_frames_without_msgtype_or_with_empty_value__outside_the_statement")
+                key = None
             else:
                 key = "accepts-malformed:" + s.split(":")[0][:40]
-            acc.violation(key, f"decode returned a message for a frame the independent framer rejects: {e}", w, cid)
+            if key is not None:
+                acc.violation(key, f"decode returned a message for a frame the independent framer rejects: {e}", w, cid)
             ref = None
         if ref is not None:
             if bytes(raw) not in buf:
@@ -199,8 +205,9 @@ def grammar_cases():
     good = fixwire.build(body)
     real_bl = int(fixwire.get(fixwire.parse(good), 9))
     for bl in ["", "ab", "-5", "-100", "+%d" % real_bl, " %d" % real_bl, "%d " % real_bl, "1_0", "9" * 30, "0", str(real_bl - 1), str(real_bl + 1),
-               str(real_bl + 50), "0%d" % real_bl, "1e2", "٣"]:
-        out.append((f"bodylength={bl!r}", fixwire.build(body, body_length=bl.encode("utf-8") if not bl.isascii() else bl)))
+               str(real_bl + 50), "0%d" % real_bl, "1e2", "٣", "9" * 4301, "1" + "0" * 6000, "0" * 5000 + str(real_bl), str(real_bl * 10),
+               str(real_bl) + "0" * 3]:
+        out.append((f"bodylength={bl[:12]!r}{'' if len(bl) <= 12 else '...x%d' % len(bl)}", fixwire.build(body, body_length=bl.encode("utf-8") if not bl.isascii() else bl)))
     ck = int(fixwire.get(fixwire.parse(good), 10))
     for c in ["abc", "5", "%d" % ck if ck < 100 else "05", " %d" % ck, "%d " % ck, "+%d" % ck, "0%03d" % ck, "", "1 3", "%03d" % ((ck + 1) % 256),
               "%03d" % ((ck + 128) % 256), "²³¹", "%02d" % (ck % 100), "-%d" % ck, "%d" % ck]:
@@ -208,6 +215,14 @@ def grammar_cases():
     for tag in ["ab", "", " 58", "-1", "5 8", "0x3A", "58.0", "+58", "058"]:
         b2 = body[:-1] + [(tag, "v")]
         out.append((f"tag={tag!r}", fixwire.build(b2)))
+    # frames the decoder returns but the session layer chokes on
+    for sq in ("2x", "", "-2", "2.0", " 2", "9" * 4400):
+        b2 = [(t, (sq if t == 34 else v)) for t, v in body]
+        out.append((f"seqnum={sq[:6]!r}", fixwire.build(b2)))
+    out.append(("two-senders", fixwire.build(body[:2] + [(49, "PEER")] + body[2:])))
+    out.append(("two-seqnums", fixwire.build(body[:4] + [(34, 2)] + body[4:])))
+    out.append(("no-msgtype", fixwire.build(body[1:])))
+    out.append(("no-seqnum", fixwire.build([x for x in body if x[0] != 34])))
     # missing '=', empty fields
     fr = good
     out.append(("missing-equals", fr.replace(b"11=g1", b"11g1")))
@@ -310,6 +325,13 @@ async def live_one(acc, clock, kind, mal, must_all, chunking, cid):
     peer = E.Peer("PEER", "ME")
     w = {"kind": kind, "malformed": fixwire.show(mal)[:400], "hex": mal[:200].hex(), "chunking": chunking}
     acc.oracle("live-reader")
+    processed = []
+    inner_pm = ep._process_message
+
+    async def recording_pm(msg, raw_msg, *a, **kw):
+        processed.append(bytes(raw_msg) if isinstance(raw_msg, (bytes, bytearray)) else raw_msg)
+        return await inner_pm(msg, raw_msg, *a, **kw)
+    ep._process_message = recording_pm          # observation at the boundary between framing and the session layer
     try:
         ep.vf_reader.feed(peer.logon())
         await settle()
@@ -393,6 +415,19 @@ async def live_one(acc, clock, kind, mal, must_all, chunking, cid):
                     key = "short-frame-head-never-skipped"
             acc.violation(key, f"live reader never reacts to {16} valid frames after the malformed input; buffer={len(ep._msg_buffer)} bytes", w, cid)
             return
+        # frames that follow the malformed one must reach the session layer, each once, whatever the malformed one did to the
+        # code that handled it - unless the connection chose to disconnect.  The first valid frame directly behind the malformed
+        # bytes is left out: a frame whose end is garbled may legitimately take its neighbour with it.
+        if ep.connection_state > ConnectionState.DISCONNECTED_BROKEN_CONN and not kind.startswith("junk-prefix:"):
+            acc.oracle("live-reader-following-frames-reach-the-session-layer")
+            cnt = [sum(1 for r in processed if r == t) for t in tail]
+            w["tail_frames_processed"] = cnt
+            if any(c != 1 for c in cnt[1:]):
+                acc.violation("live-reader-drops-valid-frames-behind-the-malformed-one" if any(c == 0 for c in cnt[1:]) else
+                              "live-reader-processes-a-frame-twice",
+                              f"of the 8 valid frames behind the malformed input, times handed to message processing: {cnt}; "
+                              f"connection still {ep.connection_state.name}", w, cid)
+                return
         if must_all:
             acc.oracle("live-reader-must-deliver-all")
             got = [r[1] for r in ep.rx]
